@@ -37,6 +37,18 @@ def check_decode(decl, dna, cs):
         return [(f'C19:decode:raised-{type(e).__name__}', f'dna_to_hp({_d(decl)}, {dna!r}) raised {e!r}')]
     if list(hp.keys()) != [h['name'] for h in decl][:len(dna)]:
         vios.append(('C19:decode:keys', f'{list(hp.keys())} for {_d(decl)}'))
+    # the value depends only on the gene: not on what a receiver did with an earlier result either
+    first = dict(hp)
+    for k in list(hp):
+        hp[k] = hp[k] * 3 + 1
+    try:
+        again = jh.dna_to_hp(decl, dna)
+        if again != first:
+            vios.append(('C19:decode:depends-on-what-was-done-with-an-earlier-result', f'dna_to_hp({_d(decl)}, {dna!r}) = {first!r}, and after the caller edited that dict: {again!r}'))
+        hp = again
+    except Exception as e:  # noqa
+        vios.append((f'C19:decode:raised-{type(e).__name__}', f'second dna_to_hp({_d(decl)}, {dna!r}) raised {e!r}'))
+        hp = first
     for i, (g, h) in enumerate(zip(dna, decl)):
         v = hp[h['name']]
         lo, hi = h['min'], h['max']
@@ -129,13 +141,18 @@ def precedence_case(case):
     rows = gc.prng_rows(7, 12, 0.5, 400)
     script = dict(rows=[{'act': 'long', 'entry': [[1, 0]], 'exits_at': 'none'}], tick=0.5, unit=0.1,
                   hyperparameters=decl, dna=case['dna'])
+    syms = ['BTC-USDT', 'ETH-USDT'][:2 if case.get('two_routes') else 1]
     spec = dict(cfg=dict(type='futures', fee=0.0, balance=10000.0, leverage=2, mode='cross', warm_up=0),
-                routes=[dict(symbol='BTC-USDT', timeframe='1m')], data=[], candles={'BTC-USDT': rows}, warmup=None,
-                scripts={'BTC-USDT': script}, fast=case.get('fast', False), hp=case['explicit'])
+                routes=[dict(symbol=s_, timeframe='1m') for s_ in syms], data=[], candles={s_: gc.prng_rows(7 + i, 12, 0.5, 400) for i, s_ in enumerate(syms)}, warmup=None,
+                scripts={s_: script for s_ in syms}, fast=case.get('fast', False), hp=case['explicit'])
     r = session.run(spec, obs='off')
     if r['error']:
         return [(f"C19:precedence:raised-{r['error']['type']}", r['error']['msg'])], None
     got = r['final']['hp']['BTC-USDT']
+    for s_ in syms[1:]:
+        # every route's strategy is given the same values
+        if r['final']['hp'].get(s_) != got:
+            return [('C19:precedence:routes-see-different-values', f"route {s_} sees {r['final']['hp'].get(s_)!r}, the first route {got!r} (decl={case['decl']}, dna={case['dna']!r}, explicit={case['explicit']!r})")], None
     if case['explicit'] is not None:
         want, src = case['explicit'], 'explicit'
     elif case['dna']:
@@ -226,11 +243,11 @@ def run_shard(acc, shard, nshards, seed, tier):
                     v = 0 if h['type'] == 'int' else 0.0
                 explicit[h['name']] = v
         return dict(kind='precedence', decl=decl, dna=d['dna'] if use_dna else '', explicit=explicit, defaults=use_defaults or use_dna,
-                    fast=draw(st.booleans()))
+                    fast=draw(st.booleans()), two_routes=draw(st.sampled_from([False, False, True])))
 
     def chk_prec(c):
         vios, src = precedence_case(c)
         nsrc = int(bool(c['defaults'])) + int(bool(c['dna'])) + int(c['explicit'] is not None)
-        return dict(key=c, nontrivial=nsrc >= 2, classes=[f'precedence:{src}', f'sources={nsrc}'], sample=c if nsrc >= 2 else None,
+        return dict(key=c, nontrivial=nsrc >= 2, classes=[f'precedence:{src}', f'sources={nsrc}'] + (['two-routes'] if c.get('two_routes') else []), sample=c if nsrc >= 2 else None,
                     violations=vios, sub='precedence-sessions')
     runner.hyp_search(acc, prec(), chk_prec, 60 if tier == "quick" else 600, seed + 9, tier, known=known, shrink_calls=40)
